@@ -1,6 +1,7 @@
 package rules
 
 import (
+	"os"
 	"fmt"
 	"strings"
 	"unicode"
@@ -62,6 +63,17 @@ func ruleCharClasses(c *Ctx, rule string, keys ...string) {
 				return ""
 			}
 			se.nonEmpty = func(coll string) bool { return coll == "P" || isRest(coll) }
+			se.elemAt = func(coll string, idx int64) string {
+				switch {
+				case isRest(coll) && idx == 0:
+					return pc
+				case coll == "P" && sp.prefix && idx == 0:
+					return "CONST:58"
+				case coll == "P" && sp.prefix && idx == 1, coll == "P" && !sp.prefix && idx == 0:
+					return pc
+				}
+				return ""
+			}
 			se.norm = func(e string) string {
 				switch e {
 				case "LEN(P)":
@@ -142,6 +154,11 @@ func ruleCharClasses(c *Ctx, rule string, keys ...string) {
 				return nil, false
 			}
 			outs := se.outcomes(f, []sval{sv("P")})
+			if os.Getenv("MUXLINT_DEBUG_CLASS") != "" {
+				for _, o := range outs {
+					fmt.Fprintf(os.Stderr, "%s probe %q: %s\n", k, string(probe), o.String())
+				}
+			}
 			want := fmt.Sprintf("CONST:%v", sp.class(probe))
 			for _, o := range outs {
 				switch {
